@@ -1,7 +1,10 @@
 """C17 — notifier: Lean model `Nt` (Model/Notifier.lean), theorems Props/C17.lean.
 
-Correspondence: stateful protocol over 2 notifiers and 5 shared targets (0 plain, 1 batch, 2 plain+panicking,
-3 batch+panicking, 4 batch).  After every operation both sides print the calls the targets received (canonical: the
+Correspondence: stateful protocol over 3 notifiers (0 normal recovery handler, 1 a handler that itself panics, 2 nil
+handler) and 128 shared targets (0 plain, 1 batch, 2 plain+panicking, 3 batch+panicking, 4 batch, 6 re-entrant: performs
+an armed Register/Unregister/SetEnabled/Reset/RegisterFromNotifier from inside HandleNotification; ids >= 5: batch iff
+id%3 == 1, panicking iff id%5 == 2; panic values cycle through string / error / runtime error / typed-nil pointer / nil /
+struct / errs.Error).  After every operation both sides print the calls the targets received (canonical: the
 harness checks non-increasing priority on the raw delivery sequence against its own name->target->priority table and
 prints `order-ok|order-bad`, then the calls sorted by priority descending / target ascending), the number of reports
 the recovery handler got, BatchLevel() and Enabled() (area `notifier`, black box).  Area `nwb` is the same protocol with
@@ -28,7 +31,10 @@ def run(ctx):
         "the notifier's RWMutex; the model does not prove this).  The clause `concurrent use is free of data races` is "
         "NOT proved: it is supported only by the multi-goroutine stress run of this check under `go build -race` "
         "(any race report, duplicate delivery, escaped panic or deadlock fails the check)",
-        "targets do not call back into the notifier from HandleNotification/BatchMode",
+        "re-entrancy is transcribed only for state-changing calls (Register, Unregister, SetEnabled, Reset, "
+        "RegisterFromNotifier) made by a target from inside HandleNotification: NotifyWithData has computed the delivery "
+        "list and released its lock before the first call, so the driver applies the call right after the notification "
+        "(Nt.step composed twice); nested Notify/StartBatch/EndBatch from inside a callback are not exercised",
         "errs.Recovery calls the handler exactly once per panic (C13 territory); the harness counts the handler calls",
         "batchLevel does not overflow int",
     ]
@@ -40,12 +46,12 @@ def run(ctx):
           "from that model on this history")
     # black-box protocol: only calls received by targets, recovery reports, BatchLevel(), Enabled()
     ctx.diff(area="notifier", driver="drv_c17", n={"quick": 100000, "thorough": 3000000}, stateful=True,
-             trivial=lambda l, o: o.startswith("order-ok | rec=0"), tagger=tagger, theorem=th)
+             trivial=lambda l, o: o.startswith("order-ok | rec=0"), tagger=tagger, theorem=th, timeout=240)
     # the same protocol with white-box dumps of productionMap / nameMap / batchTargets / currentBatch
     # (representation detail: a difference only there is reported without a concrete failing input)
     ctx.diff(area="nwb", driver="drv_c17", n={"quick": 40000, "thorough": 1000000}, stateful=True,
              trivial=lambda l, o: o.startswith("order-ok | rec=0"),
-             model_only=lambda l: l.startswith("dump"),
+             model_only=lambda l: l.startswith("dump"), timeout=240,
              theorem="C17.maps_consistent is a theorem about the model's three association lists; the implementation's "
                      "maps differ from them on this history")
     if ctx.harness("./cmd/c17", name="race", race=True, overlay=OVERLAY):
